@@ -9,6 +9,7 @@ import (
 	"verifharness/simpeer"
 	"verifharness/world"
 
+	fbig "github.com/anoideaopen/foundation/core/types/big"
 	fpb "github.com/anoideaopen/foundation/proto"
 )
 
@@ -142,6 +143,31 @@ func (e *c19ex) Exec(op string) string {
 			return "err:decode:" + p
 		}
 		return r.Fee
+	case "price":
+		// proto.TokenRate.CalcPrice on its own: amount x rate / 10^8, rounded down, any magnitude
+		if !need(3) {
+			return "bad-op"
+		}
+		rt, ok1 := new(big.Int).SetString(w[1], 10)
+		am, ok2 := new(big.Int).SetString(w[2], 10)
+		if !ok1 || !ok2 || rt.Sign() < 0 || am.Sign() < 0 {
+			return "bad-op"
+		}
+		return (&fpb.TokenRate{Rate: rt.Bytes()}).CalcPrice(&fbig.Int{Int: *am}, 8).String()
+	case "inlimit":
+		if !need(4) {
+			return "bad-op"
+		}
+		mn, ok1 := new(big.Int).SetString(w[1], 10)
+		mx, ok2 := new(big.Int).SetString(w[2], 10)
+		am, ok3 := new(big.Int).SetString(w[3], 10)
+		if !ok1 || !ok2 || !ok3 || mn.Sign() < 0 || mx.Sign() < 0 || am.Sign() < 0 {
+			return "bad-op"
+		}
+		if (&fpb.TokenRate{Min: mn.Bytes(), Max: mx.Bytes()}).InLimit(&fbig.Int{Int: *am}) {
+			return "yes"
+		}
+		return "no"
 	case "feetransfer":
 		if !need(4) || u(1) == nil || u(2) == nil {
 			return "bad-op"
@@ -300,6 +326,49 @@ func genC19(c *Cfg, emit func([]string)) {
 			nHuge++
 		}
 	}
+	// pure arithmetic on its own: prices and limit tests over magnitudes from 0 to beyond 2^128
+	{
+		bigs := []string{"0", "1", "2", "3", "7", "99999999", "100000000", "100000001", "4294967295", "4294967296", "18446744073709551615",
+			"18446744073709551616", "340282366920938463463374607431768211455", "340282366920938463463374607431768211456", "12345678901234567890123456789"}
+		rnd := func() string {
+			b := new(big.Int).Rand(c.Rng, new(big.Int).Lsh(big.NewInt(1), uint(1+c.Rng.Intn(140))))
+			return b.String()
+		}
+		val := func() string {
+			if c.Rng.Intn(3) == 0 {
+				return bigs[c.Rng.Intn(len(bigs))]
+			}
+			return rnd()
+		}
+		nPure := 4000
+		if c.Thorough() {
+			nPure = 200000
+		}
+		h := []string{"reset"}
+		for i := 0; i < nPure; i++ {
+			if i%2 == 0 {
+				h = append(h, "price "+val()+" "+val())
+			} else {
+				mn, mx, a := val(), val(), val()
+				switch c.Rng.Intn(4) {
+				case 0:
+					mx = "0"
+				case 1:
+					a = mn
+				case 2:
+					a = mx
+				}
+				h = append(h, "inlimit "+mn+" "+mx+" "+a)
+			}
+			if len(h) > 400 {
+				emit(h)
+				h = []string{"reset"}
+			}
+		}
+		if len(h) > 1 {
+			emit(h)
+		}
+	}
 	// limits: every combination of a lower and an upper bound (0 = none) with amounts at bound-1, bound, bound+1
 	nLim := 0
 	for _, lim := range [][2]string{{"100", "0"}, {"0", "50"}, {"100", "200"}, {"0", "0"}, {"1", "1"}, {"100", "100"}} {
@@ -315,6 +384,6 @@ func genC19(c *Cfg, emit func([]string)) {
 			nLim++
 		}
 	}
-	c.Rule = fmt.Sprintf("%d random histories: fee settings (share in {0,1,0.5%%,2.5%%,33.3%%,100%%,100%%+1}, floor, cap incl. 0 and cap<floor, own/foreign/unknown currency, rates, limits), user ids (same/different/none), funding {5,1000,1e5,1e12,2^128}, then 3..8 operations (transfer/buy/buyBack/predictFee) with amounts around every break point floor*1e8/share±1, cap*1e8/share±1, balance±1, 0; all balances (token, allowed USD/EUR) of 6 addresses dumped after every operation; non-trivial = contains a transfer/buy; distinct = sha256 of op+output; plus %d histories of huge deals (amounts 2^32..1e30 x rates incl. 2^64: every product beyond 64 bits) with richly funded parties; plus %d histories walking amounts across every combination of a lower and an upper limit (0 = none)", nHist, nHuge, nLim)
+	c.Rule = fmt.Sprintf("%d random histories: fee settings (share in {0,1,0.5%%,2.5%%,33.3%%,100%%,100%%+1}, floor, cap incl. 0 and cap<floor, own/foreign/unknown currency, rates, limits), user ids (same/different/none), funding {5,1000,1e5,1e12,2^128}, then 3..8 operations (transfer/buy/buyBack/predictFee) with amounts around every break point floor*1e8/share±1, cap*1e8/share±1, balance±1, 0; all balances (token, allowed USD/EUR) of 6 addresses dumped after every operation; non-trivial = contains a transfer/buy; distinct = sha256 of op+output; plus %d histories of huge deals (amounts 2^32..1e30 x rates incl. 2^64: every product beyond 64 bits) with richly funded parties; plus prices and limit tests computed on their own over magnitudes from 0 to beyond 2^128; plus %d histories walking amounts across every combination of a lower and an upper limit (0 = none)", nHist, nHuge, nLim)
 	c.Extra = map[string]any{"histories": nHist}
 }
